@@ -56,12 +56,17 @@ def fns(S, tag='u64', cxx='unsigned long'):
               members=[(r'^notify_all\|std::condition_variable', 'nv_notify'), (r'^begin\|std::vector<std::thread', '((uint64_t)0)'),
                        (r'^end\|std::vector<std::thread', '{self}->size'), (r'^join\|std::thread', 'nv_thread_join')], **pcommon)
 
-    scommon = dict(self_struct='struct nv_section', types=[(ITER, 'uint64_t')] + TYPES, uf_float=False)
+    # a LOCAL vector of futures (swap / move out of the section), wait_for: same vocabulary as the sequential target (spec.FUTVEC)
+    scommon = dict(self_struct='struct nv_section', types=[(ITER, 'uint64_t'), (r'^(%s)$' % S['FUTVEC'], 'struct nv_section')] + TYPES, uf_float=False)
     block = Fn('section_block', SRC, 'block', flt='section_t::block',
-               calls=ITER_OPS + [(r'^operator\*\|.*__normal_iterator<std::shared_future', '(*nv_future_at(self, {0}))')],
+               calls=ITER_OPS + [(r'^operator\*\|.*__normal_iterator<(const )?std::shared_future', '(*nv_future_at(__range1, {0}))'),
+                                 (r'^ctor\|(%s)\|void \((std::)?vector<.*> &&\)' % S['FUTVEC'], 'nv_futvec_move({&0})'), (r'^move\|', '{0}'),
+                                 (r'^swap\|.*\|(%s|nano::parallel::section_t)' % S['FUTVEC'], 'nv_futvec_swap({&0}, {&1})')],
                members=[(r'^begin\|std::vector<std::shared_future', '((uint64_t)0)'), (r'^end\|std::vector<std::shared_future', '{self}->size'),
+                        (r'^swap\|std::vector<std::shared_future', 'nv_futvec_swap({self}, {&0})'),
                         (r'^valid\|std::__basic_future<void>', 'nv_future_valid'), (r'^get\|std::shared_future<void>', 'nv_future_get!'),
-                        (r'^wait\|std::__basic_future<void>', 'nv_future_wait')], **scommon)
+                        (r'^wait\|std::__basic_future<void>', 'nv_future_wait'),
+                        (r'^wait_(for|until)\|std::__basic_future<void>', 'nv_future_wait_for({self})')], **scommon)
     sdtor = Fn('section_dtor', SRC, '~section_t', flt='section_t::~section_t', kinds=('CXXDestructorDecl',),
                members=[(r'^block\|nano::parallel::section_t', 'section_block')], **scommon)
 
